@@ -181,6 +181,7 @@ struct ConcurrentObjectArena {
       }
 
       newPos = oldPos + delta;
+      DISPENSO_VERIF_POINT(::dispenso::verif::kArenaAfterCapacityTest);
     } while (!std::atomic_compare_exchange_weak_explicit(
         &pos_, &oldPos, newPos, std::memory_order_release, std::memory_order_relaxed));
 
